@@ -86,6 +86,16 @@ def gen_invalid(rnd, rm):
         n = pick(rnd, sp.cells)
         t = pick(rnd, [x for x in list(mem["cells"]) + list(mem["refs"]) + list(sp.children) if x != n])
         return n and t and dict(o, space=path, cells=n, name=t)
+    if kind in ("rename_cells_clash_sub_cells", "rename_cells_clash_sub_member"):
+        n = pick(rnd, [x for x in sp.cells if not any(x in b.cells for b in R.mro(sp)[1:])])
+        if not n:
+            return None
+        cands = []
+        for s in rm.subs_of(sp):
+            pool = list(s.cells) if kind.endswith("sub_cells") else list(s.refs) + list(s.children)
+            cands += [x for x in pool if x not in mem["cells"] and x not in mem["refs"] and x not in sp.children]
+        t = pick(rnd, cands)
+        return t and dict(o, space=path, cells=n, name=t)
     if kind == "rename_derived_cells":
         n = pick(rnd, [x for x, (d, c) in mem["cells"].items() if d is not sp])
         return n and dict(o, space=path, cells=n, name="zq1")
@@ -218,7 +228,8 @@ def gen_invalid(rnd, rm):
 
 KINDS = ["new_space_badname", "new_cells_badname", "rename_cells_badname", "rename_space_badname",
          "rename_model_badname", "set_ref_badname", "new_cells_clash", "new_space_clash", "model_new_space_clash",
-         "model_ref_clash_space", "rename_cells_clash", "rename_derived_cells", "rename_space_clash",
+         "model_ref_clash_space", "rename_cells_clash", "rename_cells_clash_sub_cells", "rename_cells_clash_sub_member",
+         "rename_derived_cells", "rename_space_clash",
          "ref_clash_cells", "ref_clash_sub_member", "cells_clash_sub_member", "setattr_nonscalar_cells",
          "add_bases_self", "add_bases_cycle", "add_bases_bad_mro", "new_space_bad_mro", "new_space_cyclic_parent",
          "add_bases_child", "add_bases_parent", "add_bases_kind_conflict", "new_space_kind_conflict", "add_bases_relref_scope", "new_space_relref_scope", "remove_bases_not_base",
@@ -259,7 +270,8 @@ def apply_invalid(w, o):
             g(o["parent"]).new_space(o["name"])
         elif k == "new_cells_badname":
             g(o["space"]).new_cells(o["name"], formula="lambda: 1")
-        elif k in ("rename_cells_badname", "rename_cells_clash", "rename_derived_cells"):
+        elif k in ("rename_cells_badname", "rename_cells_clash", "rename_derived_cells",
+                   "rename_cells_clash_sub_cells", "rename_cells_clash_sub_member"):
             g(o["space"]).cells[o["cells"]].rename(o["name"])
         elif k in ("rename_space_badname", "rename_space_clash"):
             g(o["space"]).rename(o["name"])
